@@ -33,6 +33,9 @@
     v->data = nd; v->size = n; } \
   static inline void N##_reserve(struct N *v, size_t n) { (void)v; (void)n; } \
   static inline void N##_clear(struct N *v) { V_GUARD(v); N##_resize(v, 0); } \
+  static inline T *N##_erase_to_end(struct N *v, T *from, T *to) { V_GUARD(v); __CPROVER_assert(to == v->data + v->size, "erase(it, end()): second iterator is end()"); \
+    __CPROVER_assert(__CPROVER_same_object(from, to) && from <= to && (v->size == 0 || from >= v->data), "erase(it, end()): first iterator inside the container"); \
+    v->size -= (size_t)(to - from); return v->data + v->size; }   /* erasing a tail neither moves nor reallocates the elements before it */ \
   static inline struct N *N##_assign(struct N *d, const struct N *s) { V_GUARD(d); V_GUARD(s); if (d != s) { N##_resize(d, 0); N##_resize(d, s->size); V_VEC_COPY(T, d->data, s->data, s->size); } return d; } \
   static inline void N##_push_back(struct N *v, T x) { V_GUARD(v); size_t s = v->size; N##_resize(v, s + 1); v->data[s] = x; } \
   static inline void N##_pop_back(struct N *v) { V_GUARD(v); __CPROVER_assert(v->size > 0, "vector::pop_back on a non-empty vector"); N##_resize(v, v->size - 1); } \
